@@ -273,7 +273,20 @@ def run(ctx):
         for s in subsets:
             for _ in range(ctx.n(2, 6)):
                 cases.append(gen_case(rng, maxlen, ctx.n(200, 1200), nd=nd, subset=s))
-    n = ctx.n(360, 6000)
+    # call SEQUENCES: consecutive centred calls with the same oshape, dtype and mode but different input shapes (the cases are
+    # run in list order in one process, so anything one call leaves behind for the next shows up as a wrong value)
+    for _ in range(ctx.n(14, 150)):
+        nd = rng.choice([1, 1, 2, 2, 3])
+        osh = [rng.randint(2, 8) for _ in range(nd)]
+        base = dict(inverse=rng.random() < 0.5, center=True, ortho=rng.random() < 0.6, osh=osh,
+                    axes=None if rng.random() < 0.5 else gen_axes(rng, nd), dtype=rng.choice(["complex128", "complex64", "float64"]))
+        shapes = [[rng.randint(max(1, o - 3), o) for o in osh] for _ in range(3)]
+        shapes.sort(key=lambda s_: -int(np.prod(s_)))           # larger first, then smaller ones
+        if rng.random() < 0.3:
+            shapes.append([o + rng.randint(0, 2) for o in osh])
+        for ish in shapes:
+            cases.append(dict(base, ish=ish))
+    n = max(ctx.n(360, 6000), len(cases) + 100)
     while len(cases) < n:
         cases.append(gen_case(rng, maxlen, maxsize))
     done, oracle_bad, linop_bad = [], [], []
